@@ -204,6 +204,9 @@ type Exec struct {
 	Patch      string
 	Admission  string
 	Conversion string
+	ExitCode   int // real mode: exit status of the process
+	Report     map[string]string
+	ReportCtx  []byte
 	// observations
 	QueueSeen  string // queue whose task carries exactly these contexts while the hook runs ("" = not identified)
 	HeadIdx    int    // position of that task in its queue (0 = head)
@@ -351,7 +354,39 @@ type OpSim struct {
 	Booted   bool
 	inFlight int
 	Arrivals []Arrival
+	Real     bool   // hook files are real bash scripts, executions run real processes (C12)
+	CtlDir   string // control directory of the real scripts
 }
+
+const realHookScript = `#!/bin/bash
+key=$(echo "$0" | sed "s#^$VERIF_HOOKS_DIR/##; s#/#__#g")
+ctl="$VERIF_CTL_DIR"
+if [ "$1" = "--config" ]; then
+  cat "$ctl/$key.config"
+  exit 0
+fi
+n=$(cat "$ctl/$key.n")
+rep="$ctl/$key.report.$n"
+{
+  echo "pwd=$(pwd)"
+  echo "argc=$#"
+  for v in BINDING_CONTEXT_PATH METRICS_PATH KUBERNETES_PATCH_PATH VALIDATING_RESPONSE_PATH ADMISSION_RESPONSE_PATH CONVERSION_RESPONSE_PATH; do
+    p="${!v}"
+    if [ -f "$p" ]; then sz=$(stat -c %s "$p"); else sz=-1; fi
+    echo "env.$v=$p"
+    echo "size.$v=$sz"
+  done
+  echo "tmp=$(ls -1 "$(dirname "$BINDING_CONTEXT_PATH")" | tr '\n' ' ')"
+} > "$rep"
+cp "$BINDING_CONTEXT_PATH" "$rep.ctx"
+[ -f "$ctl/$key.out.metrics" ] && cat "$ctl/$key.out.metrics" > "$METRICS_PATH"
+[ -f "$ctl/$key.out.patch" ] && cat "$ctl/$key.out.patch" > "$KUBERNETES_PATCH_PATH"
+[ -f "$ctl/$key.out.admission" ] && cat "$ctl/$key.out.admission" > "$VALIDATING_RESPONSE_PATH"
+[ -f "$ctl/$key.out.conversion" ] && cat "$ctl/$key.out.conversion" > "$CONVERSION_RESPONSE_PATH"
+exit $(cat "$ctl/$key.exit")
+`
+
+func hookKey(rel string) string { return strings.ReplaceAll(rel, "/", "__") }
 
 // Arrival: a task created by the events handler for a kube event or a schedule tick
 // (observed by wrapping the handler callbacks; the tasks are appended right afterwards).
@@ -376,6 +411,8 @@ func NewOpSim(e *Env, hooks []*HookSpec) *OpSim {
 	o.TmpDir = filepath.Join(e.Dir, "tmp")
 	os.MkdirAll(o.HooksDir, 0o755)
 	os.MkdirAll(o.TmpDir, 0o755)
+	o.CtlDir = filepath.Join(e.Dir, "ctl")
+	os.MkdirAll(o.CtlDir, 0o755)
 	for _, h := range hooks {
 		o.Hooks[h.Path] = h
 		p := filepath.Join(o.HooksDir, h.Path)
@@ -393,10 +430,24 @@ func NewOpSim(e *Env, hooks []*HookSpec) *OpSim {
 	return o
 }
 
+// UseRealHooks replaces the hook files by real bash scripts that record what they see.
+func (o *OpSim) UseRealHooks() {
+	o.Real = true
+	os.Setenv("VERIF_CTL_DIR", o.CtlDir)
+	os.Setenv("VERIF_HOOKS_DIR", o.HooksDir)
+	for _, h := range o.Hooks {
+		os.WriteFile(filepath.Join(o.HooksDir, h.Path), []byte(realHookScript), 0o755)
+		os.WriteFile(filepath.Join(o.CtlDir, hookKey(h.Path)+".config"), []byte(h.ConfigJSON()), 0o644)
+	}
+}
+
 func (o *OpSim) stub(cmd *exec.Cmd, op string) ([]byte, error) {
 	rel, _ := filepath.Rel(o.HooksDir, cmd.Path)
 	if len(cmd.Args) > 1 && cmd.Args[1] == "--config" {
 		o.Configs[rel]++
+		if o.Real {
+			return cmd.Output()
+		}
 		h := o.Hooks[rel]
 		if h == nil {
 			return nil, fmt.Errorf("exit status 127")
@@ -443,14 +494,47 @@ func (o *OpSim) stub(cmd *exec.Cmd, op string) ([]byte, error) {
 			os.WriteFile(x.Env[env], []byte(content), 0o644)
 		}
 	}
-	write("METRICS_PATH", x.Metrics)
-	write("KUBERNETES_PATCH_PATH", x.Patch)
-	write("VALIDATING_RESPONSE_PATH", x.Admission)
-	write("CONVERSION_RESPONSE_PATH", x.Conversion)
+	var realErr error
+	if o.Real {
+		// phase two: the actual process, run to completion inside this scheduler step
+		key := hookKey(rel)
+		ctl := func(suffix, content string) {
+			p := filepath.Join(o.CtlDir, key+suffix)
+			if content == "" {
+				os.Remove(p)
+			} else {
+				os.WriteFile(p, []byte(content), 0o644)
+			}
+		}
+		ctl(".n", fmt.Sprint(x.N))
+		ctl(".out.metrics", x.Metrics)
+		ctl(".out.patch", x.Patch)
+		ctl(".out.admission", x.Admission)
+		ctl(".out.conversion", x.Conversion)
+		ctl(".exit", fmt.Sprint(x.ExitCode))
+		realErr = cmd.Run()
+		x.Report = map[string]string{}
+		if data, err := os.ReadFile(filepath.Join(o.CtlDir, fmt.Sprintf("%s.report.%d", key, x.N))); err == nil {
+			for _, ln := range strings.Split(string(data), "\n") {
+				if i := strings.IndexByte(ln, '='); i > 0 {
+					x.Report[ln[:i]] = ln[i+1:]
+				}
+			}
+		}
+		x.ReportCtx, _ = os.ReadFile(filepath.Join(o.CtlDir, fmt.Sprintf("%s.report.%d.ctx", key, x.N)))
+	} else {
+		write("METRICS_PATH", x.Metrics)
+		write("KUBERNETES_PATCH_PATH", x.Patch)
+		write("VALIDATING_RESPONSE_PATH", x.Admission)
+		write("CONVERSION_RESPONSE_PATH", x.Conversion)
+	}
 	x.EndSeq = o.e.Seq()
 	x.End = o.e.Since()
 	o.inFlight--
 	simrt.Logf("exec end #%d fail=%v", x.N, x.Fail)
+	if o.Real {
+		return nil, realErr
+	}
 	if x.Fail {
 		return nil, fmt.Errorf("exit status 1")
 	}
